@@ -14,10 +14,25 @@ What is proved here (about the mirror in `Cedar/Ffi.lean`, for ARBITRARY parsers
 * `exit_code_table`, `authorize_exit_reflects_response` — the CLI's exit-code table is injective with the
   documented numbers, and `cedar authorize`'s status and printed line determine the response's decision.
 
-What is NOT proved here: that the FFI assembles its inputs as the Rust API does (policy-id assignment for text
-policies, template links, schema-directed context/entity parsing, request validation on/off, validation error
-ids, formatting, conversions) and that the real `stateful_is_authorized` tail equals the real `is_authorized`
-tail. Those equalities are checked by the differential run only (harness/src/c19.rs: FFI vs Rust API on generated
+* POLICY-SET ASSEMBLY (second part of this file; model `Cedar/FfiPolicies.lean` = mirror of `ffi::PolicySet::parse`,
+  `StaticPolicySet::parse`, `Policy::parse`, `Template::parse_and_add_to_set`, `TemplateLink::parse_and_add_to_set` in
+  cedar-policy/src/ffi/utils.rs, on top of the C08 model of `cedar_policy::PolicySet`):
+  `assemble_eq_api_history` / `assemble_ok_iff` — the FFI's set is the set built by the explicit API history
+  `add* ++ add_template* ++ link*` from the empty set, with the ids the FFI assigns (`policy{n}` by position for a
+  concatenated text, the map key for the map form, the default id for every element of the list form, template-map keys,
+  links' `newId`), it exists iff every document parses and every call of that history succeeds, and otherwise the error
+  list is exactly: static-part errors (all document errors, or the first failing `add`), then per template and per link, in
+  order, its document error or the error of its call — templates and links being processed from the EMPTY set after a
+  failed static part; `assemble_inv` — C08's invariants (`ApiPolicySet.WF`, core `WF`, `Strict`) hold of the result;
+  `assemble_ids` / `assemble_ids_collision` — policies = static ids ∪ link ids, templates = template ids, all distinct; a
+  collision is always reported; `assemble_authorize` — authorizing with the assembled set = authorizing with the API-built set.
+
+What remains trusted / NOT proved here: the text and EST-JSON parsers themselves (documents enter the model as the parser's
+verdict; text parser = C05), including that they assign the id they are given and that `Template::parse` refuses slot-less
+policies (`TemplatesHaveSlots`); serde's decoding of the JSON envelope (duplicate keys are refused there); the iteration
+order of the two `HashMap`s (the theorems hold for every order); schema-directed context/entity parsing, request validation
+on/off, validation error ids, formatting, conversions; and that the real `stateful_is_authorized` tail equals the real
+`is_authorized` tail. Those are checked by the differential run only (harness/src/c19.rs: FFI vs Rust API on generated
 inputs in every accepted input shape; cache histories vs this model; CLI runs vs API).
 
 Spec used below (defined in Lemmas/Ffi.lean, history = oldest call first):
